@@ -111,6 +111,20 @@ Theorem c04_vsock_ack_guarded_trace :
   c04_vsock_ack_guarded cfg (ftrace cci s0 ops) = true.
 Proof. intros CC cci. exact (C04_Step.c04_vsock_ack_guarded_trace cci). Qed.
 
+(* the guard in its two parts: inside the tolerance part (c04_tol_ok: at most WRAP_TOLERANCE sequence-carrying
+   packets, 16-bit numbers) a failure of c04_vsock_ack_ok is of the known class D22 (c04_d22_class: the peer
+   delivered an ST_DATA numbered at or above an ST_FIN it delivered):
+   c04_vsock_ack_or_d22 cfg tr = if c04_tol_ok cfg tr then c04_vsock_ack_ok cfg tr || c04_d22_class cfg tr else true *)
+Theorem c04_vsock_ack_or_d22_trace :
+  forall CC (cci : cc_iface CC) mk c cfg (s0 : vsock CC) ops,
+  C10_Pred.vconfig_ok c = true -> vsock_new cci mk c = Some s0 ->
+  c04_vsock_ack_or_d22 cfg (ftrace cci s0 ops) = true.
+Proof. intros CC cci. exact (C04_Step.c04_vsock_ack_or_d22_trace cci). Qed.
+
+Theorem c04_peer_ok_split :
+  forall cfg tr, c04_peer_ok cfg tr = c04_tol_ok cfg tr && negb (c04_d22_class cfg tr).
+Proof. exact C04_Step.peer_ok_split. Qed.
+
 (* (2) a peer that sends ST_DATA above its own FIN makes the endpoint acknowledge a number that never arrived
    (ack_nr 3 after 2, 4, FIN 1, 2): the same on the real code *)
 Theorem c04_vsock_ack_ok_refuted_after_fin :
@@ -136,6 +150,8 @@ Theorem c04_wrap_shape : c04_wrap_b = true.
 Proof. exact C04_Step.c04_wrap_shape. Qed.
 
 Print Assumptions c04_vsock_ack_guarded_trace.
+Print Assumptions c04_vsock_ack_or_d22_trace.
+Print Assumptions c04_peer_ok_split.
 Print Assumptions c04_vsock_ack_ok_refuted_after_fin.
 Print Assumptions c04_after_fin_shape.
 Print Assumptions c04_vsock_ack_ok_refuted_wrap.
